@@ -229,7 +229,11 @@ def Outcome.cons (x : String × Verdict) : Outcome → Outcome
   | .crashed vs site => .crashed (x :: vs) site
   | .unknown vs why => .unknown (x :: vs) why
 
-/-- The loop of `eval_tests` over the selected tests. -/
+/-- The loop of `eval_tests` over the selected tests. Tests are NOT keyed by name: `eval_tests`
+collects `test_defs` from the items in order, duplicates included, and runs every definition with
+its own body (only `env.tests`, which the runner does not read, is keyed by name — the last
+definition wins there). Two tests with the same name (in one file, or in two files of one
+invocation) are two entries of the list, two verdicts and two units of the summary count. -/
 def runTestsWith (d : Program → Frame → St → Expr → Disp) (fuel : Nat) : State → List TestDef → Outcome
   | s, [] => .finished [] s
   | s, t :: ts =>
